@@ -284,6 +284,15 @@ def pick_n(rng, tier, heavy=False):
 
 def gen(rng, tier):
     total = 720 if tier == "quick" else (80 if tier == "search" else 9000)
+    # fixed block, every tier and seed: gates whose index tuple spans 7 or 8 qubits (the permutation inside
+    # _lift_matrix then acts on 2**7 / 2**8 basis states and is not an involution) - seeded change C01-6.
+    # The whole matrix is checked by the oracle; inside Coq ten columns are compared with the specification.
+    wide = [(7, dict(g="CNOT"), [6, 0]), (7, dict(g="ctrl", k=1, of=dict(g="ISWAP")), [6, 2, 0])]
+    if tier == "thorough":
+        wide += [(7, dict(g="CNOT"), [0, 6]), (7, dict(g="ctrl", k=2, of=dict(g="Y")), [1, 6, 0]), (8, dict(g="ISWAP"), [7, 0]),
+                 (8, dict(g="ctrl", k=1, of=dict(g="SWAP")), [0, 7, 3]), (8, dict(g="CNOT"), [1, 7])]
+    for n, spec, qs in wide:
+        yield dict(kind="lift-cols", n=n, gate=spec, qs=qs, cols=sorted(rng.sample(range(2 ** n), 10)))
     for _ in range(total):
         r = rng.random()
         if r < 0.30:
@@ -600,6 +609,24 @@ def run_case(inp0):
         exact = valid and x_same_mat(O, x_lift(x_from(M), qs, n))
         return finish(dict(chk=chk, oracle_ok=ok, oracle_msg=msg, kind=label + f"-k{len(qs)}",
                            nontrivial=len(qs) < n or qs != sorted(qs)), exact)
+    if kind == "lift-cols":
+        n, qs, cols = inp["n"], inp["qs"], inp["cols"]
+        gate = mk_gate(inp["gate"])
+        M = gate_matrix(gate)
+        op = GateOperation(gate, tuple(qs))
+        st, out = outcome(lambda: op.lifted_matrix(n), timeout=120)
+        if st != "ok":
+            return dict(chk="false", oracle_ok=False, oracle_msg=f"lifted_matrix({n}) of {inp['gate']} on {qs} raised {out}", kind=kind)
+        O = exmat(out)
+        ok = len(O) == 2 ** n and close(fl(O), ref_lift(fl(M), qs, n))
+        msg = "" if ok else f"lifted_matrix({n}) of gate {inp['gate']} on qubits {qs} is not the gate on those qubits and identity elsewhere"
+        g = f"(G {cmat(M)} {clist(qs, cnat)})"
+        colsl = clist(cols, lambda j: f"({cnat(j)}, {cvec([row[j] for row in O])})")
+        # the tuple is valid by construction: the model accepts it (Props/C01.v, lift_accepts_valid_tuples); evaluating
+        # lift_raises would build the mirror's permutation matrices, which is what is too slow at this width
+        chk = f"lift_cols_eqb {g} {cnat(n)} {colsl}"
+        exact = ok and x_same_mat(O, x_lift(x_from(M), qs, n))
+        return finish(dict(chk=chk, oracle_ok=ok, oracle_msg=msg, kind=f"lift-wide-n{n}-k{len(qs)}", nontrivial=True), exact)
     if kind == "unitary":
         n, ops = inp["n"], inp["ops"]
         impl = build_ops(ops)
